@@ -385,6 +385,13 @@ def _Solve_Axb(
     else:
         raise NotImplementedError(f"{solver} is not implemented.")
 
+    if solver in (SolverType.cg, SolverType.bicg, SolverType.gmres, "lgmres"):
+        # scipy returns its last iterate whether or not it converged: info > 0 is the
+        # number of iterations done when the tolerance was not reached (info < 0: breakdown, e.g. a zero right-hand side)
+        assert (
+            output <= 0
+        ), f"{solver} did not converge (info = {output}); use the direct solver or another backend."
+
     tic.Tac("Solver", f"Solve {problemType} ({solver})", simu._verbosity)
 
     # # A x - b = 0
